@@ -80,3 +80,8 @@ Proof. vm_compute. reflexivity. Qed.
 (* qsqrt is partial: 2 has no rational root *)
 Example w_qsqrt_partial : qsqrt 2 = None /\ qsqrt (9 # 4) = Some (3 # 2).
 Proof. split; vm_compute; reflexivity. Qed.
+
+(* the model's threshold is the binary64 number written 1e-8 in numpy.isclose: within 1e-24 of 10^-8 *)
+Example w_atol : Qle_bool (Qabs (orient_atol - (1 # 100000000))) (1 # 1000000000000000000000000) = true
+                 /\ Qden orient_atol = (2 ^ 78)%positive.
+Proof. split; vm_compute; reflexivity. Qed.
